@@ -117,7 +117,14 @@ func c04Run(t *testing.T, rep *verifReport, caFixture string, ed bool) {
 		if lu != nil {
 			code = lu.Query().Get("code")
 		}
+		// (a second authorization gives the code that stands for its kind below: the first one is spent on obtaining
+		// the access and ID tokens, and a tree may - rightly - refuse a code that has been redeemed once)
 		mk("code", code)
+		if r2 := env.Do(verifReq{Path: "/idp/oauth2/authorize?" + qs.Encode(), Cookies: verifCk(session)}.Build()); r2.Code == 302 {
+			if lu2, _ := url.Parse(r2.Header.Get("Location")); lu2 != nil && lu2.Query().Get("code") != "" {
+				mk("code", lu2.Query().Get("code"))
+			}
+		}
 		r = env.Do(verifReq{Method: "POST", Path: "/idp/oauth2/token", Form: url.Values{"grant_type": {"authorization_code"}, "code": {code},
 			"redirect_uri": {"https://app.example.com/cb"}, "client_id": {"client-a"}, "client_secret": {"secret-a"}}}.Build())
 		var tr struct {
@@ -303,6 +310,10 @@ func c04Run(t *testing.T, rep *verifReport, caFixture string, ed bool) {
 		for _, m := range mutants {
 			cl := a.Claims.clone()
 			m.mut(cl)
+			if _, has := cl["jti"]; has && c.Kind == "code" && !m.reject[c.Kind] {
+				// a variant the model lets through is a different code, not a replay of the one redeemed above
+				cl["jti"] = fmt.Sprintf("verif-%s-%d", m.name, time.Now().UnixNano())
+			}
 			tok := verifMint(cl, ca)
 			judge(c, a, tok, "claim:"+m.name, !m.reject[c.Kind], m.unspec[c.Kind] && !m.reject[c.Kind])
 		}
